@@ -132,19 +132,27 @@ def session(concepts, seed, sid):
             op = rng.randrange(14)
             if op == 0:
                 args = (rng.choice(pool_o), rng.sample(pool_p, rng.randint(2, 4)))
+                if step % 3 == 0:
+                    args = (args[0], args[1] + ['-set%d' % step, '-setter%d' % step, '-set%d' % step, '-settest%d' % step])
                 rec(f'set_object{args}', lambda: (d.set_object(*args), state()))
             elif op == 1:
                 args = (rng.choice(pool_p), rng.sample(pool_o, rng.randint(2, 4)))
+                if step % 3 == 0:
+                    args = (args[0], args[1] + ['set%d!' % step, 'setter%d!' % step, 'set%d!' % step, 'settest%d!' % step])
                 rec(f'set_property{args}', lambda: (d.set_property(*args), state()))
             elif op == 2:
                 args = (rng.choice(pool_o), rng.sample(pool_p, rng.randint(2, 4)))
                 if step % 2:      # an ordered, re-iterable, non-list container of names
                     args = (args[0], dict.fromkeys(args[1] + ['-fresh%d' % step, '-fresher%d' % step]).keys())
+                elif step % 3 == 0:   # a name list that mentions names more than once, several of them new
+                    args = (args[0], args[1] + ['-new%d' % step, '-newer%d' % step, '-new%d' % step, args[1][0], '-newest%d' % step])
                 rec(f'add_object {args[0]}', lambda: (d.add_object(*args), state()))
             elif op == 3:
                 args = (rng.choice(pool_p), tuple(rng.sample(pool_o, rng.randint(2, 4))))
                 if step % 2:
                     args = (args[0], dict.fromkeys(list(args[1]) + ['fresh%d!' % step, 'fresher%d!' % step]))
+                elif step % 3 == 0:
+                    args = (args[0], args[1] + ('new%d!' % step, 'newer%d!' % step, 'new%d!' % step, args[1][-1], 'newest%d!' % step))
                 rec(f'add_property {args[0]}', lambda: (d.add_property(*args), state()))
             elif op == 4:
                 o = rng.choice(others)
